@@ -367,6 +367,9 @@ type VC struct {
 	BatchAnswer string
 	ExpectSat bool // cover/vacuity checks: sat is the good answer
 	Props     []string
+	// vacuity after a call: the hypotheses as they were before the callee's contract was assumed
+	PreAsserts []string
+	PreDecls   []string
 }
 
 type ModelVar struct {
